@@ -130,6 +130,20 @@ fn run_case(rec: &mut Rec, d: &Value) {
             rec.ev("bin", json!({ "items": items }));
             rec.nontrivial();
         }
+        // rectangles that are more than 2^31 apart: only intersection (the envelope is not representable)
+        "farpairs" => {
+            rec.begin(d.clone());
+            let mut items = vec![];
+            for p in d["pairs"].as_array().unwrap() {
+                let (a, b) = (rect_from(&p[0]), rect_from(&p[1]));
+                match catch(|| (a.intersection(&b), b.intersection(&a))) {
+                    Ok((i1, i2)) => items.push(json!([rect_json(&a), rect_json(&b), rect_json(&i1), rect_json(&i2), 0])),
+                    Err(_) => items.push(json!([rect_json(&a), rect_json(&b), [0, 0, 0, 0], [0, 0, 0, 0], 1])),
+                }
+            }
+            rec.ev("farbin", json!({ "items": items }));
+            rec.nontrivial();
+        }
         "un" => {
             rec.begin(d.clone());
             let r = rect_from(&d["r"]);
@@ -195,6 +209,23 @@ fn main() {
             batch.push(json!([rect_json(&a), rect_json(&b)]));
             if batch.len() == 250 || n + 1 == npairs {
                 run_case(&mut rec, &json!({"k":"pairs","pairs":std::mem::take(&mut batch)}));
+            }
+        }
+        // far apart rectangles with small sizes (all coordinate sums stay below 2^31)
+        {
+            let bases = [2_000_000_000i32, -2_000_000_000, 1_500_000_000, -500_000_000, 0, 2_147_480_000, -2_147_483_648];
+            let mut pairs = vec![];
+            for &ax in &bases {
+                for &bx in &bases {
+                    for (ay, by) in [(0, 0), (-2_000_000_000, 2_000_000_000), (5, 1_900_000_000)] {
+                        let a = json!([ax, ay, rng.u32r(0, 900), rng.u32r(1, 900)]);
+                        let b = json!([bx.saturating_add(rng.i32(0, 400)), by, rng.u32r(1, 900), rng.u32r(0, 900)]);
+                        pairs.push(json!([a, b]));
+                    }
+                }
+            }
+            for chunk in pairs.chunks(49) {
+                run_case(&mut rec, &json!({"k":"farpairs","pairs":chunk}));
             }
         }
         for n in 0..nun {
